@@ -10,6 +10,7 @@ CONSTANTS
   SplitWrite = TRUE
   NoMaxCheck = FALSE
   NoMinCheck = FALSE
+  ResumeFresh = FALSE
   NoReadFull = FALSE
   WithHist = FALSE
   Export = FALSE
